@@ -49,6 +49,27 @@ var glyphServerWeave = []weave.PkgConfig{
 }
 
 var specs = map[string]*propSpec{
+	"C09": {
+		ID: "C09", Title: "async blocks are race-free, deterministic and settle once",
+		TestPkg: "cmd/glyph", HarnessDir: "C09", HarnessExtra: []string{"glyphcommon"},
+		Weave: []weave.PkgConfig{
+			{Path: "./cmd/glyph"},
+			{Path: "./pkg/server"},
+			{Path: "./pkg/websocket"},
+			{Path: "./pkg/interpreter", Touch: true, L1: []string{"(*Interpreter).EvaluateExpression", "(*Interpreter).ExecuteStatement"}, L2Files: []string{"future.go"}},
+			{Path: "./pkg/vm", Touch: true, L1: []string{"(*VM).step", "(*VM).execAsync", "(*VM).execAwait"}},
+		},
+		QuickSecs: 45, ThoroughSecs: 600, Chunk: 100,
+		Rule: "each run is one of: (A) 2-6 tasks issuing Resolve/Reject/Cancel/Await*/State/Value/Error on 1-4 shared futures plus All/Race/Any combinators over them, statement-level interleaving; (A') a combinator whose inputs are settled one at a time with a full drain in between (first-settled / first-success / order contracts); (B) a generated async/await route program (1-4 blocks, nesting, loops, parents that keep declaring or assigning, repeated and missing awaits) served by the real pipeline in compiled or interpreter mode, executed once under a non-preemptive reference schedule and 3-6 times under the seeded schedule; a run is non-trivial if at least two tasks were runnable at once and a preemption happened; distinct = distinct fingerprints (schedule hash combined with workload tape) among those",
+		Components: []component{
+			{"pkg/interpreter Future, All/Race/Any, evaluateAsyncExpr/evaluateAwaitExpr, Environment", "real-woven", "future.go statement-level yields, EvaluateExpression/ExecuteStatement entry yields, race probes"},
+			{"pkg/vm execAsync/execAwait/FutureValue, step", "real-woven", "entry yields + race probes"},
+			{"parser, compiler, setupRoutes, createHandler", "real-woven", "L0"},
+			{"TCP sockets / net/http server loop", "stub", "handler invoked directly"},
+			{"clock, timers, context deadlines", "stub", "testing/synctest fake clock"},
+		},
+		FaultKinds: []string{"clock-jump"},
+	},
 	"C06": {
 		ID: "C06", Title: "declared authentication fails closed (stateful facet)",
 		TestPkg: "cmd/glyph", HarnessDir: "C06", HarnessExtra: []string{"glyphcommon"},
